@@ -687,7 +687,7 @@ class ArrayType(
 
     def print_parameters(self, printer: Printer) -> None:
         with printer.in_angle_brackets():
-            printer.print_int(len(self))
+            printer.print_int(self.size_attr.data)
             printer.print_string("x")
             printer.print_attribute(self.get_element_type())
 
